@@ -17,7 +17,8 @@ VERIF = Path(__file__).resolve().parent.parent
 HARNESS = VERIF / "harness"
 SPEC = VERIF / "spec"
 WORK = VERIF / "work"
-EVID = VERIF / "evidence"
+# (tools/try_mutant.sh redirects the evidence of runs against a deliberately broken tree to a scratch directory)
+EVID = Path(os.environ["VERIF_EVIDENCE_DIR"]) if os.environ.get("VERIF_EVIDENCE_DIR") else VERIF / "evidence"
 REPLAYS = VERIF / "work" / "replays"
 TLA_JAR = "/opt/veriftools/tla/tla2tools.jar:/opt/veriftools/tla/CommunityModules-deps.jar"
 
